@@ -64,6 +64,11 @@ def cases(tier, seed, i, n):
             for c_ in (1.0, 2.5):
                 for age in (0.0, 4.0):
                     yield dict(kind='overlap', what=what, c=c_, age=age)
+        for p_ in (0.5, 1.0):
+            for r_, t_, c_, h_ in ((1.0, 1.5, None, 'flood'), (0.7, 4.0, 3.3, 'flood'), (0, None, 1.0, 'flood+app-close-noreply'),
+                                   (0.7, 4.0, 3.3, 'flood+app-close-noreply'), (0, None, 3.3, 'flood+app-close-reply'),
+                                   (0, None, 1.0, 'flood+server-close-nodrop'), (3.0, 9.0, None, 'flood+pong-prompt')):
+                yield dict(p=p_, r=r_, t=t_, c=c_, h=h_, hseed=rnd.randrange(1 << 30) * 3 + 1, no_auto_pong=False)
         # a clock that reads round decimal values (epoch 0): multiples of the ping rate and poll instants then
         # coincide up to the last bit, which is where "next multiple in the future" computed in floats can be wrong
         for p, r in ((0.1, 0.3), (0.2, 0.3), (0.1, 0.7), (0.25, 0.7), (0.1, 0.01), (0.5, 1.5), (0.1, 0.6), (1.0, 3.0)):
@@ -83,7 +88,7 @@ def build(case):
     horizon = 40 * p
     steps = []
     table = {}
-    kinds = [h] if h != 'mixed' else rnd.sample(HIST[:-1], 3)
+    kinds = h.split('+') if h != 'mixed' else rnd.sample(HIST[:-1], 3)
     arrivals = []          # (time, bytes)
     end = None             # steps appended at the end (reactive part)
     for k in kinds:
@@ -98,6 +103,12 @@ def build(case):
             # yet no event is produced - Poll, pings and timeouts must run all the same
             q = rnd.choice((p / 4, p / 2, 0.3))
             steps.append(('drip', F(2, b'e', fin=0), F(0, b'e', fin=0), int(horizon / q), q))
+        elif k == 'flood':
+            # binary messages whose frame is exactly one receive buffer (65536 bytes), five per poll interval for the whole
+            # run: every read comes back full and the selector never times out - nothing of which says that a Pong or
+            # the Close reply has arrived
+            full = F(2, b'f' * 65532)
+            steps.append(('drip', full, full, int(horizon / (p / 5)), p / 5))
         elif k == 'data-regular':
             q = rnd.choice((0.3, p, r or 0.9, p / 2))
             x = q
